@@ -63,15 +63,18 @@ def showSym (pars : List (Par × List (Nat × Par))) (s : Sym) : String :=
 def showParLog (p : Par × List (Nat × Par)) : String :=
   s!"{showRat p.1.cn2}|{showRat p.1.L0}" ++ String.join (p.2.map fun e => s!"@{e.1}|{showRat e.2.cn2}|{showRat e.2.L0}")
 
+def showReq (r : InterpReq) : String :=
+  s!"req={showV2 r.offset} reqc={showRat r.matrix.1},{showRat r.matrix.2},{r.order},{if r.nearest then "nearest" else "other"}"
+
 def showInf (L : InfL) : String :=
   let pars := (L.screen.map fun s => (s.par, s.plog)).eraseDups
-  s!"ok c={showV2 L.center} t={showRat L.t} sub={showV2 L.sub} rng={L.rng.pos} orig={L.orig.pos} hist={L.hist} " ++
+  s!"ok c={showV2 L.center} t={showRat L.t} sub={showV2 L.sub} {showReq L.interpRequest} rng={L.rng.pos} orig={L.orig.pos} hist={L.hist} " ++
   s!"v={showV2 L.vel} par={showPar L.par} pars=" ++ ";".intercalate (pars.map showParLog) ++
   " scr=" ++ ",".intercalate (L.screen.map (showSym pars))
 
 /-- bookkeeping only (long histories of tiny steps: the screen is printed at the reads' operations only) -/
 def showInfQ (L : InfL) : String :=
-  s!"ok c={showV2 L.center} t={showRat L.t} sub={showV2 L.sub} rng={L.rng.pos} orig={L.orig.pos} hist={L.hist} " ++
+  s!"ok c={showV2 L.center} t={showRat L.t} sub={showV2 L.sub} {showReq L.interpRequest} rng={L.rng.pos} orig={L.orig.pos} hist={L.hist} " ++
   s!"v={showV2 L.vel} par={showPar L.par}"
 
 def b01 (b : Bool) : String := if b then "1" else "0"
